@@ -15,9 +15,9 @@ fi
 prop="$1"; tier="${2:-quick}"
 case "$prop" in
 C04)
-	if [ "$tier" = thorough ]; then
-		exec ./c04_thorough.sh
-	fi
+	# C04 adds the loop-level interleaving pass on a yield-instrumented scratch copy (both tiers)
+	# and the race-detector pass (thorough)
+	exec ./c04.sh "$tier"
 	;;
 esac
 exec ./.bin/simcheck -prop "$prop" -tier "$tier"
